@@ -116,6 +116,9 @@ func generate(prop, tier string, seed uint64, run int) *Scenario {
 		if pick >= 75 {
 			return genReuse(prop, seed, run)
 		}
+		if pick < 10 {
+			return genCreate(prop, seed, run)
+		}
 		return genMulti(prop, seed, run, tier)
 	case "C19":
 		return genRecurse(prop, seed, run, tier)
